@@ -77,6 +77,18 @@ def fail(ctx, sigs, what, spec, case, observed):
     return False
 
 
+def _chunk(specs, protos):
+    col = G.Collector()
+    sigs = {}
+    for spec in specs:
+        for p in protos:
+            col.count()
+            ok = check_graph(col, spec, p, sigs)
+            col.distinct(None)
+            col.outcome('ok' if ok else 'fails')
+    return col
+
+
 def families():
     """Targeted larger shapes the property names."""
     out = []
@@ -111,12 +123,12 @@ def run(ctx):
     specs = []
     kinds = ('L', 'T', 'D', 'P', 'R')
     for n in range(1, n_max + 1):
-        for t in G.gen_trees(n, kinds, G.VARIANTS if n <= 3 or not ctx.quick else ('RBase', 'RNoSet'), depth=4):
+        for t in G.gen_trees(n, kinds, G.VARIANTS, depth=4):
             if any(s[0] == 'R' and s[1] == 'RFalsy' and s[2] for s in G._all(t)):
                 continue     # the falsy-state variant transmits nothing: only meaningful as a leaf
             if any(s[0] == 'R' for s in G._all(t)):
                 specs.append(t)
-                if n <= (3 if ctx.quick else 4):
+                if n <= 4:
                     specs.extend(G.with_backedges(t))
     fam = [f for f in families() if not any(s[0] == 'R' and s[1] == 'RFalsy' and s[2] for s in G._all(f))]
     specs.extend(fam)
@@ -124,13 +136,13 @@ def run(ctx):
         specs.extend(G.with_backedges(f)[:40])
     specs = [t for t in specs if not any(s[0] == 'R' and s[1] == 'RFalsy' and s[2] for s in G._all(t))]
     ngood = 0
-    for spec in specs:
-        for p in protos:
-            ctx.count()
-            ok = check_graph(ctx, spec, p, sigs)
-            ctx.distinct((repr(spec), p))
-            ctx.outcome('ok' if ok else 'fails')
-            ngood += 1 if ok else 0
+    for col in G.parallel_chunks(_chunk, specs, extra=(protos,)):
+        G.merge_into(ctx, col)
+        ngood += col.outcomes.get('ok', 0)
+        for sg, n_ in col.sigcount.items():
+            sigs[sg] = sigs.get(sg, 0) + n_
+    # distinct cases were counted inside the shards (every (graph, protocol) pair is distinct by construction)
+
     ctx.sample({'spec': specs[len(specs) // 2], 'features': sorted(G.features(specs[len(specs) // 2]))})
     ctx.sample({'spec': specs[-1], 'features': sorted(G.features(specs[-1]))})
     ctx.extra['graphs'] = len(specs)
